@@ -253,7 +253,8 @@ func (m *MemMapFs) OpenFile(name string, flag int, perm os.FileMode) (File, erro
 	if err != nil {
 		return nil, err
 	}
-	if flag == os.O_RDONLY {
+	if flag&(os.O_WRONLY|os.O_RDWR) == 0 {
+		// the access mode, not the whole flag word, decides whether the handle may write
 		file = mem.NewReadOnlyFileHandle(file.(*mem.File).Data())
 	}
 	if flag&os.O_APPEND > 0 {
